@@ -55,7 +55,8 @@ DESCRIPTION = {
     ],
     "required_probes": {
         "quick": ["two_defaults_in_flight", "import_time_default_differs", "env_flip_during_scoped", "history_s1_s2_none", "mechanism_env_after_import",
-                  "mechanism_scoped", "mechanism_preimport", "no_default_placeholder", "retry_after_failed_evaluation", "insertion_sweep", "dialect_zoo_compared", "foreign_thread"],
+                  "mechanism_scoped", "mechanism_preimport", "no_default_placeholder", "retry_after_failed_evaluation", "insertion_sweep", "dialect_zoo_compared", "foreign_thread", "env_changed_then_threads_analyse_concurrently",
+                  "second_analysis_in_the_same_block"],
         "thorough": ["two_defaults_in_flight", "import_time_default_differs", "env_flip_during_scoped", "history_s1_s2_none"],
     },
 }
@@ -258,6 +259,17 @@ def run_one(spec: dict) -> dict:
             env_before = env_now[0]
             with SQLLineageConfig(DEFAULT_SCHEMA=S):
                 got = analyse(tid, None)
+                # several analyses inside ONE block: the override lasts until the block ends, whatever ran in it before
+                for extra in st.get("then") or []:
+                    probe("second_analysis_in_the_same_block")
+                    got2 = analyse(extra, None)
+                    want2 = refs[f"{extra}|{S}"]
+                    events.append([t.idx, extra, S, "scoped-then", short(got2, 12)])
+                    if got2 != want2:
+                        k2 = [a for a in ACC if got2.get(a) != want2.get(a)]
+                        violate("default_schema_not_equivalent",
+                                f"template {extra} ({_desc(extra)}) analysed under default {S!r} in the same scoped block after {tid} ({_desc(tid)}) differs from the qualified "
+                                f"rendering in {k2[:3]}: got {json.dumps(got2[k2[0]])[:300]} expected {json.dumps(want2[k2[0]])[:300]}", t.idx)
             if env_now[0] != env_before:
                 probe("env_flip_during_scoped")
             in_scoped[t.idx] = None
@@ -455,6 +467,8 @@ def _needed(spec) -> set:
         for st in p:
             for S in {st["S"], pre, None, spec.get("env0")} | set(spec.get("operator") or []):
                 need.add((st["tpl"], S))
+            for extra in st.get("then") or []:
+                need.add((extra, st["S"]))
     return need
 
 
@@ -482,6 +496,8 @@ def _with_refs(spec, refs):
         for st in p:
             for S in {st["S"], pre, None, spec.get("env0")} | set(spec.get("operator") or []):
                 need.add(f"{st['tpl']}|{S}")
+            for extra in st.get("then") or []:
+                need.add(f"{extra}|{st['S']}")
     s = dict(spec)
     s["refs"] = {k: refs[k] for k in need if k in refs}
     return s
@@ -529,6 +545,11 @@ def gen(seed) -> dict:
                 if prog and g.random() < 0.3 and "retry_after" not in st:
                     # the same statement text again, later in this process, under another default (text-keyed caches)
                     st["tpl"] = g.choice(prog)["tpl"]
+                gt = stream(seed, f"gen-then-{len(threads)}-{len(prog)}")
+                if "retry_after" not in st and gt.random() < 0.3:
+                    if gt.random() < 0.5 and not tids[0].startswith("corpus:"):
+                        st["tpl"] = gt.choice(["scalar_subquery_both_ways", "scalar_subquery_q", "case_subquery", "where_subquery_both_ways", "scalar_subquery_both_ways_legacy"])
+                    st["then"] = [gt.choice(tids) for _ in range(gt.choice([1, 1, 2]))]
                 prog.append(st)
             threads.append(prog)
         if g.random() < 0.6:
